@@ -64,6 +64,7 @@ package websocket
 //@ func readFrameHeader
 //@ tags C03
 //@ requires r != nil && len(readBuf) == 8
+//@ requires [armed] {C09 C10} ghconn(r) != nil ==> gvcIsArmed(ghconn(r).readTimeout)
 //@ modifies ghrd(r).pos, bytes(readBuf)
 //@ ensures [dec] err == nil ==> specDecoded(r, old(ghrd(r).pos), h)
 //@ ensures [consumed] err == nil ==> ghrd(r).pos == old(ghrd(r).pos) + specDecodedLen(r, old(ghrd(r).pos))
@@ -189,7 +190,7 @@ package websocket
 // Footprints (textual macros).
 //@ define RDFP ghrd(c.br).pos, c.readHeaderBuf, c.readControlBuf, chanstate(c.readTimeout)
 //@ define WRFP ghwr(c.bw).pos, ghwr(c.bw).out, ghwr(c.bw).buffered, ghrd(specRand()).pos, c.writeHeader, c.writeHeaderBuf, bytes(c.writeBuf), chanstate(c.writeTimeout), chanstate(c.writeFrameMu.ch), gh(c).closeSent
-//@ define CLFP chanstate(c.readMu.ch), chanstate(c.msgWriter.writeMu.ch), c.br, c.msgReader.flateReader, c.msgReader.dict, c.msgWriter.flateWriter
+//@ define CLFP chanstate(c.closed), chanstate(c.readMu.ch), chanstate(c.msgWriter.writeMu.ch), c.br, c.msgReader.flateReader, c.msgReader.dict, c.msgReader.dict.buf, c.msgWriter.flateWriter
 
 // Write-side and close-side callees of the read path. Their contracts are stated here
 // and proved against their bodies further below (write.go / close.go sections).
@@ -221,76 +222,96 @@ package websocket
 //@ ensures [invalid-not-sent] {C06 C02} code != StatusNoStatusRcvd && !(specSendableCode(code) && len(reason) <= specMaxReason) ==> result != nil && ghwr(c.bw).pos == old(ghwr(c.bw).pos)
 //@ ensures [err-kind] !errIsCE(result)
 
+//@ func (*msgReader).close
+//@ tags C05 C07
+//@ requires mr != nil && mr.c != nil && mr.c.readMu != nil && mr.c.readMu.ch != nil && !gvcHeld(mr.c.readMu.ch)
+//@ modifies chanstate(mr.c.readMu.ch), mr.flateReader, mr.dict, mr.c.br, mr.dict.buf
+//@ ensures [locked-forever] {C05} gvcHeld(mr.c.readMu.ch)
+//@ ensures [released] {C07} mr.flateReader == nil && mr.dict == nil && (mr.c.client ==> mr.c.br == nil) && (!mr.c.client ==> mr.c.br == old(mr.c.br))
+
+//@ func (*msgWriter).close
+//@ tags C05 C07
+//@ requires mw != nil && mw.c != nil && mw.writeMu != nil && mw.writeMu.ch != nil && !gvcHeld(mw.writeMu.ch) && mw.c.writeFrameMu != nil && mw.c.writeFrameMu.ch != nil && !gvcHeld(mw.c.writeFrameMu.ch) && mw.writeMu.ch != mw.c.writeFrameMu.ch
+//@ modifies chanstate(mw.writeMu.ch), chanstate(mw.c.writeFrameMu.ch), mw.flateWriter
+//@ ensures [locked-forever] {C05} gvcHeld(mw.writeMu.ch) && (mw.c.client ==> gvcHeld(mw.c.writeFrameMu.ch))
+//@ ensures [released] {C07} mw.flateWriter == nil
+
 //@ func (*Conn).close
-//@ assumed in-package contract, not yet proved against its body (listed as assumed in the evidence)
 //@ tags C05 C06 C20
-//@ requires connInv(c) && !gvcHeld(c.readMu.ch)
-//@ modifies $WRFP, $CLFP
-//@ ensures [closed] gvcClosed(c.closed)
+//@ requires connInv(c) && !gvcHeld(c.readMu.ch) && !gvcHeld(c.writeFrameMu.ch) && !gvcHeld(c.msgWriter.writeMu.ch) && c.rwc != nil
+//@ modifies chanstate(c.closed), chanstate(c.readMu.ch), chanstate(c.msgWriter.writeMu.ch), chanstate(c.writeFrameMu.ch), c.br, c.msgReader.flateReader, c.msgReader.dict, c.msgReader.dict.buf, c.msgWriter.flateWriter
+//@ ensures [closed] {C06 C20} gvcClosed(c.closed)
+//@ ensures [once] old(gvcClosed(c.closed)) ==> result == net.ErrClosed && c.br == old(c.br)
+//@ ensures [dict-released-only] c.msgReader.dict == old(c.msgReader.dict) || c.msgReader.dict == nil
+//@ ensures [not-ce] !errIsCE(result)
 
 //@ func (*Conn).handleControl
 //@ tags C03 C15 C06
-//@ requires connInv(c) && c.br != nil && ctx != nil && gvcHeld(c.readMu.ch) && (h.opcode == opClose || h.opcode == opPing || h.opcode == opPong)
+//@ requires connReady(c) && c.br != nil && ctx != nil && gvcHeld(c.readMu.ch) && !gvcHeld(c.writeFrameMu.ch) && !gvcHeld(c.msgWriter.writeMu.ch) && (h.opcode == opClose || h.opcode == opPing || h.opcode == opPong)
 //@ modifies $RDFP, $WRFP, $CLFP
-//@ ensures [ok-keeps] err == nil ==> connInv(c) && c.br == old(c.br) && gvcHeld(c.readMu.ch) && h.opcode != opClose
+//@ ensures [ok-keeps] err == nil ==> connReady(c) && c.br == old(c.br) && gvcHeld(c.readMu.ch) && !gvcHeld(c.writeFrameMu.ch) && !gvcHeld(c.msgWriter.writeMu.ch) && h.opcode != opClose
 //@ ensures [ctl-len] (h.payloadLength > 125 || !h.fin) ==> err != nil && ghrd(old(c.br)).pos == old(ghrd(c.br).pos)
 //@ ensures [consumed] err == nil ==> ghrd(c.br).pos == old(ghrd(c.br).pos) + int(h.payloadLength)
 //@ ensures [close-code] h.opcode == opClose && errIsCE(err) && h.payloadLength >= 2 ==> int(errCECode(err)) == specBE16(rdin(old(c.br), old(ghrd(c.br).pos)) ^ specMaskByte(h.maskKey, 0)&specBit(h.masked, 0xff), rdin(old(c.br), old(ghrd(c.br).pos)+1) ^ specMaskByte(h.maskKey, 1)&specBit(h.masked, 0xff))
 //@ ensures [close-empty] h.opcode == opClose && errIsCE(err) && h.payloadLength == 0 ==> errCECode(err) == StatusNoStatusRcvd
 //@ ensures [rearm] {C10} err == nil ==> gvcArmed(c.readTimeout) == context.Background()
 //@ ensures [not-eof] err != io.EOF
+//@ ensures [dict-released-only] c.msgReader.dict == old(c.msgReader.dict) || c.msgReader.dict == nil
 
 //@ func (*Conn).readLoop
 //@ tags C03 C04
-//@ requires connInv(c) && c.br != nil && ctx != nil && gvcHeld(c.readMu.ch)
+//@ requires connReady(c) && c.br != nil && ctx != nil && gvcHeld(c.readMu.ch) && !gvcHeld(c.writeFrameMu.ch) && !gvcHeld(c.msgWriter.writeMu.ch)
 //@ modifies $RDFP, $WRFP, $CLFP
 //@ ensures [data-op] result1 == nil ==> result0.opcode == opContinuation || result0.opcode == opText || result0.opcode == opBinary
 //@ ensures [rsv] result1 == nil ==> !result0.rsv2 && !result0.rsv3 && (result0.rsv1 ==> c.copts != nil && (result0.opcode == opText || result0.opcode == opBinary))
 //@ ensures [mask-server] result1 == nil && !c.client ==> result0.masked
 //@ ensures [mask-client] result1 == nil && c.client ==> !result0.masked
 //@ ensures [nonneg] result1 == nil ==> result0.payloadLength >= 0
-//@ ensures [ok-keeps] result1 == nil ==> connInv(c) && c.br == old(c.br) && gvcHeld(c.readMu.ch)
+//@ ensures [ok-keeps] result1 == nil ==> connReady(c) && c.br == old(c.br) && gvcHeld(c.readMu.ch) && !gvcHeld(c.writeFrameMu.ch) && !gvcHeld(c.msgWriter.writeMu.ch)
 //@ ensures [rearm] {C10} result1 == nil ==> gvcArmed(c.readTimeout) == context.Background()
 //@ ensures [zero-on-err] result1 != nil ==> result0 == header{}
 //@ ensures [not-eof] result1 != io.EOF
+//@ ensures [dict-released-only] c.msgReader.dict == old(c.msgReader.dict) || c.msgReader.dict == nil
 //@ loop 1 modifies $RDFP, $WRFP, $CLFP
-//@ loop 1 invariant [inv] connInv(c) && c.br == old(c.br) && c.br != nil && gvcHeld(c.readMu.ch)
+//@ loop 1 invariant [inv] connReady(c) && c.br == old(c.br) && c.br != nil && gvcHeld(c.readMu.ch) && !gvcHeld(c.writeFrameMu.ch) && !gvcHeld(c.msgWriter.writeMu.ch) && (c.msgReader.dict == old(c.msgReader.dict) || c.msgReader.dict == nil)
 
 // ---------------------------------------------------------------------------
 // read.go: message level (C03, C04, C08, C01)
 
 //@ define RDFPm ghrd(mr.c.br).pos, mr.c.readHeaderBuf, mr.c.readControlBuf, chanstate(mr.c.readTimeout)
 //@ define WRFPm ghwr(mr.c.bw).pos, ghwr(mr.c.bw).out, ghwr(mr.c.bw).buffered, ghrd(specRand()).pos, mr.c.writeHeader, mr.c.writeHeaderBuf, bytes(mr.c.writeBuf), chanstate(mr.c.writeTimeout), chanstate(mr.c.writeFrameMu.ch), gh(mr.c).closeSent
-//@ define CLFPm chanstate(mr.c.readMu.ch), chanstate(mr.c.msgWriter.writeMu.ch), mr.c.br, mr.c.msgReader.flateReader, mr.c.msgReader.dict, mr.c.msgWriter.flateWriter
+//@ define CLFPm chanstate(mr.c.closed), chanstate(mr.c.readMu.ch), chanstate(mr.c.msgWriter.writeMu.ch), mr.c.br, mr.c.msgReader.flateReader, mr.c.msgReader.dict, mr.c.msgReader.dict.buf, mr.c.msgWriter.flateWriter
 
 //@ func (*msgReader).read
 //@ tags C03 C04 C01
-//@ requires connInv(mr.c) && mr.c.msgReader == mr && mr.c.br != nil && mr.ctx != nil && gvcHeld(mr.c.readMu.ch)
+//@ requires connReady(mr.c) && mr.c.msgReader == mr && mr.c.br != nil && mr.ctx != nil && gvcHeld(mr.c.readMu.ch) && !gvcHeld(mr.c.writeFrameMu.ch) && !gvcHeld(mr.c.msgWriter.writeMu.ch)
 //@ modifies bytes(p), mr.fin, mr.payloadLength, mr.maskKey, $RDFPm, $WRFPm, $CLFPm
 //@ ensures [n] 0 <= result0 && result0 <= len(p)
 //@ ensures [eof-iff-done] result1 == io.EOF ==> result0 == 0 && mr.fin && mr.payloadLength == 0
 //@ ensures [payload-server] {C04 C01} !mr.c.client && !(mr.flate && mr.fin && mr.payloadLength == 0) && mr.c.br == old(mr.c.br) ==> forall(0, result0, func(k int) bool { return p[k] == rdin(mr.c.br, ghrd(mr.c.br).pos-result0+k)^specMaskByte(specUnrot(mr.maskKey, result0), k) })
 //@ ensures [payload-client] {C04 C01} mr.c.client && !(mr.flate && mr.fin && mr.payloadLength == 0) && mr.c.br == old(mr.c.br) ==> forall(0, result0, func(k int) bool { return p[k] == rdin(mr.c.br, ghrd(mr.c.br).pos-result0+k) })
 //@ ensures [nonneg] mr.payloadLength >= 0
+//@ ensures [dict-released-only] mr.dict == old(mr.dict) || mr.dict == nil
 //@ ensures [err-not-complete] {C04} (errIs(result1, io.EOF) || errIs(result1, io.ErrUnexpectedEOF)) && result1 != io.EOF ==> !(mr.fin && mr.payloadLength == 0)
 //@ ensures [advance] {C04 C01} old(mr.payloadLength) > 0 && mr.c.br == old(mr.c.br) ==> mr.payloadLength == old(mr.payloadLength)-int64(result0) && mr.fin == old(mr.fin)
 //@ loop 1 modifies mr.fin, mr.payloadLength, mr.maskKey, $RDFPm, $WRFPm, $CLFPm
-//@ loop 1 invariant [inv] connInv(mr.c) && mr.c.br == old(mr.c.br) && mr.c.br != nil && gvcHeld(mr.c.readMu.ch) && mr.payloadLength >= 0 && gvcSameSlice(p, old(p)) && (old(mr.payloadLength) > 0 ==> mr.payloadLength == old(mr.payloadLength) && mr.fin == old(mr.fin))
+//@ loop 1 invariant [inv] connReady(mr.c) && !gvcHeld(mr.c.writeFrameMu.ch) && !gvcHeld(mr.c.msgWriter.writeMu.ch) && mr.c.br == old(mr.c.br) && mr.c.br != nil && gvcHeld(mr.c.readMu.ch) && mr.payloadLength >= 0 && gvcSameSlice(p, old(p)) && (mr.dict == old(mr.dict) || mr.dict == nil) && (old(mr.payloadLength) > 0 ==> mr.payloadLength == old(mr.payloadLength) && mr.fin == old(mr.fin))
 
 //@ func (*limitReader).Read
 //@ tags C08
-//@ requires lr.c != nil && connInv(lr.c) && lr.c.msgReader.limitReader == lr && ghconn(lr.r) == lr.c && lr.r != nil
-//@ modifies bytes(p), lr.n, ghrd(lr.c.br).pos, lr.c.readHeaderBuf, lr.c.readControlBuf, chanstate(lr.c.readTimeout), ghwr(lr.c.bw).pos, ghwr(lr.c.bw).out, lr.c.writeHeader, lr.c.writeHeaderBuf, bytes(lr.c.writeBuf), chanstate(lr.c.writeTimeout), chanstate(lr.c.writeFrameMu.ch), gh(lr.c).closeSent, ghwr(lr.c.bw).buffered, ghrd(specRand()).pos, chanstate(lr.c.readMu.ch), chanstate(lr.c.msgWriter.writeMu.ch), lr.c.br, lr.c.msgReader.flateReader, lr.c.msgReader.dict, lr.c.msgWriter.flateWriter, lr.c.msgReader.fin, lr.c.msgReader.payloadLength, lr.c.msgReader.maskKey
+//@ requires lr.c != nil && connReady(lr.c) && !gvcHeld(lr.c.writeFrameMu.ch) && !gvcHeld(lr.c.msgWriter.writeMu.ch) && lr.c.msgReader.limitReader == lr && ghconn(lr.r) == lr.c && lr.r != nil
+//@ modifies bytes(p), lr.n, ghrd(lr.c.br).pos, lr.c.readHeaderBuf, lr.c.readControlBuf, chanstate(lr.c.readTimeout), ghwr(lr.c.bw).pos, ghwr(lr.c.bw).out, lr.c.writeHeader, lr.c.writeHeaderBuf, bytes(lr.c.writeBuf), chanstate(lr.c.writeTimeout), chanstate(lr.c.writeFrameMu.ch), gh(lr.c).closeSent, ghwr(lr.c.bw).buffered, ghrd(specRand()).pos, chanstate(lr.c.readMu.ch), chanstate(lr.c.msgWriter.writeMu.ch), chanstate(lr.c.closed), lr.c.br, lr.c.msgReader.flateReader, lr.c.msgReader.dict, lr.c.msgReader.dict.buf, lr.c.msgWriter.flateWriter, lr.c.msgReader.fin, lr.c.msgReader.payloadLength, lr.c.msgReader.maskKey
 //@ ensures [n] 0 <= result0 && result0 <= len(p)
 //@ ensures [unlimited] old(lr.n) < 0 ==> lr.n == old(lr.n)
 //@ ensures [exhausted] old(lr.n) == 0 ==> result0 == 0 && result1 != nil && !errIs(result1, io.EOF) && !errIs(result1, io.ErrUnexpectedEOF)
 //@ ensures [budget] old(lr.n) > 0 ==> int64(result0) <= old(lr.n) && lr.n == old(lr.n)-int64(result0)
 //@ ensures [payload-nonneg] lr.c.msgReader.payloadLength >= 0
 //@ ensures [dict-released-only] lr.c.msgReader.dict == old(lr.c.msgReader.dict) || lr.c.msgReader.dict == nil
+//@ ensures [dict-buf-kept] lr.c.msgReader.dict != nil ==> gvcSameSlice(lr.c.msgReader.dict.buf, old(lr.c.msgReader.dict.buf))
 
 //@ func (*msgReader).Read
 //@ tags C04 C03 C08
-//@ requires connInv(mr.c) && mr.c.msgReader == mr && mr.ctx != nil && !gvcHeld(mr.c.readMu.ch) && ghconn(mr.limitReader.r) == mr.c && mr.limitReader.r != nil && (mr.flate ==> mr.c.copts != nil) && (mr.flate && !specReceiverNoTakeover(mr.c.client, mr.c.copts) ==> mr.dict != nil && cap(mr.dict.buf) > 0 && gvcRegion(mr.dict.buf) != gvcRegion(p))
+//@ requires connReady(mr.c) && !gvcHeld(mr.c.writeFrameMu.ch) && !gvcHeld(mr.c.msgWriter.writeMu.ch) && mr.c.msgReader == mr && mr.ctx != nil && !gvcHeld(mr.c.readMu.ch) && ghconn(mr.limitReader.r) == mr.c && mr.limitReader.r != nil && (mr.flate ==> mr.c.copts != nil) && (mr.flate && !specReceiverNoTakeover(mr.c.client, mr.c.copts) ==> mr.dict != nil && cap(mr.dict.buf) > 0 && gvcRegion(mr.dict.buf) != gvcRegion(p))
 //@ modifies bytes(p), mr.limitReader.n, mr.fin, mr.payloadLength, mr.maskKey, $RDFPm, $WRFPm, $CLFPm, bytes(mr.dict.buf), mr.dict.buf
 //@ ensures [n] 0 <= n && n <= len(p)
 //@ ensures [eof-complete] {C04} errIs(err, io.EOF) ==> mr.fin && mr.payloadLength == 0
